@@ -1618,10 +1618,14 @@ forward_query(int bind_fd, struct query *q)
 	fwq.id = q->id;
 	fw_query_put(&fwq);
 
+	/* The forward socket is IPv4, also when the query came in over IPv6 */
 	newaddr = inet_addr("127.0.0.1");
+	memset(&(q->from), 0, sizeof(q->from));
 	myaddr = (struct sockaddr_in *) &(q->from);
+	myaddr->sin_family = AF_INET;
 	memcpy(&(myaddr->sin_addr), &newaddr, sizeof(in_addr_t));
 	myaddr->sin_port = htons(bind_port);
+	q->fromlen = sizeof(struct sockaddr_in);
 
 	if (debug >= 2) {
 		fprintf(stderr, "TX: NS reply \n");
